@@ -7,6 +7,7 @@ require (
 	github.com/creack/pty v1.1.23
 	github.com/scrapli/scrapligo v0.0.0
 	golang.org/x/crypto v0.26.0
+	golang.org/x/sys v0.23.0
 	gopkg.in/yaml.v3 v3.0.1
 )
 
